@@ -134,6 +134,18 @@ pub fn collect_from(
     }
 }
 
+/// Run `f` under the fuel hook (when the hooks are compiled in): an executor that dispatches more
+/// than `fuel` instructions panics, which the callers record as a failure of the case.
+pub fn fueled<T>(fuel: u64, f: impl FnOnce() -> T) -> T {
+    #[cfg(all(regress_verif, not(feature = "f-alloc")))]
+    regress::verif::begin(false, 0, fuel);
+    let r = f();
+    #[cfg(all(regress_verif, not(feature = "f-alloc")))]
+    regress::verif::end();
+    let _ = fuel;
+    r
+}
+
 pub fn panic_msg(e: Box<dyn std::any::Any + Send>) -> String {
     if let Some(s) = e.downcast_ref::<&str>() {
         format!("panic: {}", s)
@@ -318,6 +330,10 @@ pub fn run_case(idx: usize, case: &Value, o: &SemOpts) -> (Value, Option<Value>,
         for s in 0..=(hay.cps.len() + 1) {
             let sb = if s <= hay.cps.len() { hay.cp_to_byte[s] } else { hay.text.len() + 1 };
             let mut badv: Vec<String> = Vec::new();
+            // every run is bounded by the fuel hook, so that a search that does not terminate is a
+            // recorded failure of its case instead of a hang (or an out-of-memory kill) of the runner
+            #[cfg(all(regress_verif, not(feature = "f-alloc")))]
+            regress::verif::begin(false, 0, o.fuel);
             // primary: public API (backtracker, optimized, UTF-8)
             let prim = catch_unwind(AssertUnwindSafe(|| {
                 let mut it = re_opt.find_from(&hay.text, sb);
@@ -330,6 +346,8 @@ pub fn run_case(idx: usize, case: &Value, o: &SemOpts) -> (Value, Option<Value>,
                 }
                 v
             }));
+            #[cfg(all(regress_verif, not(feature = "f-alloc")))]
+            regress::verif::end();
             let prim = match prim {
                 Ok(v) => v,
                 Err(e) => {
@@ -381,7 +399,12 @@ pub fn run_case(idx: usize, case: &Value, o: &SemOpts) -> (Value, Option<Value>,
             }
             for (name, re, eng, ascii) in variants {
                 nvariants += 1;
-                match collect_from(re, &hay.text, sb, eng, ascii, limit) {
+                #[cfg(all(regress_verif, not(feature = "f-alloc")))]
+                regress::verif::begin(false, 0, o.fuel);
+                let collected = collect_from(re, &hay.text, sb, eng, ascii, limit);
+                #[cfg(all(regress_verif, not(feature = "f-alloc")))]
+                regress::verif::end();
+                match collected {
                     Ok(ms) => {
                         let recs: Vec<MatchRec> = ms.iter().map(|m| convert(m, &hay, &mut badv)).collect();
                         if recs != prim_recs {
